@@ -74,33 +74,83 @@ def gate_table(chk, F, rid, table, extra_ok=()):
                sample="%s: %s(%s) must %shold" % (name, pred, ".".join(subj), "" if must else "not "))
 
 
+# Binder forms whose body is deliberately not gated, confirmed by reading
+QUANT_EXEMPT = {
+    "FOREACH_DYNAMIC": "foreach (p : T) e is the statement-like form of an update: its body is meant to have effects",
+    "MITL_FORALL": "exists only inside MITL queries; a query is gated as a whole (visitProperty: changes_any_variable "
+                   "descends into every child)",
+    "MITL_EXISTS": "see MITL_FORALL",
+}
+
+
+def binder_kinds(F):
+    """{kind: callback} for the expression kinds that bind a variable: what the expr_*_end callbacks of
+    ExpressionBuilder create whose expr_*_begin opens a scope with the binder in it (add_symbol, directly or through
+    another _begin callback)."""
+    cls = "UTAP::ExpressionBuilder"
+
+    def opens(fn, depth=0):
+        for c in calls(fn["body"]):
+            if c.get("name") == "add_symbol":
+                return True
+            if depth < 2 and (c.get("name") or "").endswith("_begin") and c.get("cls") == cls:
+                t = F.resolve_method(cls, c["name"])
+                if t is not None and t.get("body") is not None and t is not fn and opens(t, depth + 1):
+                    return True
+        return False
+    out = {}
+    for fn in F.functions.values():
+        if fn.get("cls") == cls and (fn.get("name") or "").startswith("expr_") and fn["name"].endswith("_begin") and \
+                fn.get("body") is not None and opens(fn):
+            end = F.resolve_method(cls, fn["name"][:-6] + "_end")
+            if end is None or end.get("body") is None:
+                continue
+            for c in calls(end["body"]):
+                if (c.get("fn") or "").startswith("UTAP::expression_t::create_") and c.get("args"):
+                    for x in walk(c["args"][0]):
+                        if x.get("dk") == "enumerator":
+                            out[x["name"]] = end["name"]
+    if not {"FORALL", "EXISTS", "SUM"} <= set(out):
+        raise AnalysisBroken("binder kinds not found in ExpressionBuilder (%s)" % sorted(out))
+    return out
+
+
 def quantifier_bodies(chk, F, rid):
-    """checkExpression: FORALL / EXISTS / SUM report an error when the body writes."""
+    """checkExpression: every binder form (static and dynamic quantifiers, sums) reports an error when its body - the
+    last child - writes."""
     from ..tables import CheckExprTable
+    from .exprlaws import size_table
     T = CheckExprTable(F)
     fn = T.fn
-    for kind in ("FORALL", "EXISTS", "SUM"):
-        body = None
-        for labels, s in T.items:
-            if kind in labels:
-                body = s
-        # collect statements of the case up to its break
+    sizes, _ = size_table(F)
+    kinds = binder_kinds(F)
+    for kind in sorted(kinds):
+        if kind in QUANT_EXEMPT:
+            chk.ob(rid, "checkExpression|%s body|listed" % kind, True, "", "%s:%s" % (fn["file"], fn["line"]),
+                   sample="%s - listed: %s" % (kind, QUANT_EXEMPT[kind][:60]))
+            continue
+        ar = sizes.get(kind)
+        if not isinstance(ar, int) or ar < 2:
+            raise AnalysisBroken("arity of %s not known (%r)" % (kind, ar))
         idx = [i for i, (labels, _) in enumerate(T.items) if kind in labels]
         if not idx:
-            raise AnalysisBroken("checkExpression has no case for %s" % kind)
+            chk.ob(rid, "checkExpression|%s body|%s" % (kind, CHANGES), False,
+                   "checkExpression has no clause for %s (created by ExpressionBuilder::%s): the node keeps the type the "
+                   "builder gave it and its body is never asked whether it writes - `b = %s(x++ >= 0)` is accepted" %
+                   (kind, kinds[kind], "forall (p : T) " if "DYNAMIC" in kind else kind.lower() + " (i : int[0,1]) "),
+                   "%s:%s" % (fn["file"], fn["line"]))
+            continue
         stmts = []
         for labels, s in T.items[idx[0]:]:
             stmts.append(s)
-            if any(x.get("k") == "break" for x in walk(s) if isinstance(x, dict)) and s.get("k") == "break":
-                break
             if s.get("k") == "break":
                 break
         pseudo = {"q": fn["q"], "file": fn["file"], "line": fn["line"], "body": {"k": "block", "s": stmts}}
         al = G.collect_aliases(fn)
-        g, cands = G.gated(pseudo, ("expr", "[1]"), CHANGES, False, al)
+        g, cands = G.gated(pseudo, ("expr", "[%d]" % (ar - 1)), CHANGES, False, al)
         chk.ob(rid, "checkExpression|%s body|%s" % (kind, CHANGES), g is not None,
-               "checkExpression: the body of %s is not rejected when it can write" % kind if g is None else
-               "checkExpression rejects a writing %s body" % kind, "%s:%s" % (fn["file"], fn["line"]))
+               "checkExpression: the body of %s (child %d) is not rejected when it can write" % (kind, ar - 1)
+               if g is None else "checkExpression rejects a writing %s body" % kind, "%s:%s" % (fn["file"], fn["line"]))
 
 
 def write_kinds(F, G_):
@@ -1220,3 +1270,57 @@ def run_block_locals(chk, F, CG, rid="R-VISITOR"):
            "(%s): initialisers of the other locals (arrays, say) are invisible to the read/write-set computation, so a "
            "function that reads a variable only there counts as reading nothing" % ", ".join(sorted(set(preds))[:4]),
            "%s:%s" % (fn["file"], fn["line"]))
+
+
+# ---------------------------------------------------------------------------------------------- R-CALLEE
+def run_callee(chk, F, collectors, rid="R-CALLEE"):
+    """The callee of a FUN_CALL is not always an identifier: expr_dot builds `P.f` (DOT over a process) and `p.f`
+    (DYNAMIC_EVAL over a dynamic-process variable), both with the type of the member.  expression_t::get_symbol()
+    answers `the process` for the first and `nothing` for the second, so a collector that takes the summary of the called
+    function from get(0).get_symbol() sees no function there (found by a defect-hunt sub-agent: `A[] P.f() >= 0` with a
+    writing f was accepted, `forall (p : Child)(p.g() >= 0)` crashed)."""
+    from ..inline import KindSlicer, strip
+    chk.rule(rid, "the FUN_CALL clause of %s resolves the called function with a branch of its own for every member "
+                  "shape ExpressionBuilder::expr_dot creates (DOT, DYNAMIC_EVAL): get_symbol() of such a callee is not "
+                  "the symbol of the function" % " / ".join(collectors))
+    ed = F.resolve_method("UTAP::ExpressionBuilder", "expr_dot")
+    if ed is None or ed.get("body") is None:
+        raise AnalysisBroken("ExpressionBuilder::expr_dot not found")
+    shapes = set()
+    for c in calls(ed["body"]):
+        if not (c.get("fn") or "").startswith("UTAP::expression_t::create_"):
+            continue
+        if c.get("name") == "create_dot":
+            shapes.add("DOT")
+        elif (c.get("name") or "").startswith("create_") and c.get("args"):
+            a = strip(c["args"][0])
+            if isinstance(a, dict) and a.get("k") == "ref" and a.get("dk") == "enumerator":
+                shapes.add(a["name"])
+    if not {"DOT", "DYNAMIC_EVAL"} <= shapes:
+        raise AnalysisBroken("expr_dot: member shapes not found (%s)" % sorted(shapes))
+    for name in collectors:
+        fn = F.fn("UTAP::expression_t::" + name)
+        sl = KindSlicer(F, fn, subject="this")
+        body = sl.slice("FUN_CALL")
+        uses_summary = any(n.get("k") == "member" and n.get("name") in ("changes", "depends") for n in walk(body))
+        if not uses_summary:
+            raise AnalysisBroken("%s: the FUN_CALL clause does not read a function summary" % name)
+        tested = set()
+        for n in walk(body):
+            n = strip(n) if isinstance(n, dict) else n
+            if isinstance(n, dict) and n.get("k") == "bin" and n.get("op") in ("==", "!="):
+                for x, y in ((n["lhs"], n["rhs"]), (n["rhs"], n["lhs"])):
+                    x, y = strip(x), strip(y)
+                    if isinstance(x, dict) and x.get("k") == "call" and x.get("name") == "get_kind" and \
+                            isinstance(y, dict) and y.get("dk") == "enumerator":
+                        tested.add(y["name"])
+            if isinstance(n, dict) and n.get("k") == "case" and isinstance(n.get("v"), dict):
+                tested.add(n["v"].get("name"))
+        for sh in sorted(shapes):
+            chk.ob(rid, "%s|%s" % (name, sh), sh in tested,
+                   "%s takes the function summary of a call from the symbol of the callee without a branch for the "
+                   "callee shape %s that expr_dot builds for a member function of a process: get_symbol() of that shape "
+                   "is %s, so the writes / reads of the called function are not counted" %
+                   (fn["q"], sh, "the symbol of the process" if sh == "DOT" else "empty"),
+                   "%s:%s" % (fn["file"], fn["line"]),
+                   sample="%s: callee shape %s resolved separately" % (name, sh))
